@@ -47,6 +47,9 @@ class RFC8323Remote:
     # implementing interfaces.EndpointAddress
 
     def __repr__(self):
+        if not hasattr(self, "_remote_hostinfo"):
+            # The addresses are only known once the connection is made
+            return "<%s at %#x, not connected>" % (type(self).__name__, id(self))
         return "<%s at %#x, hostinfo %s, local %s>" % (
             type(self).__name__,
             id(self),
